@@ -152,6 +152,17 @@ Proof.
     now rewrite sizes_dstates, sizes_cstates.
 Qed.
 
+Lemma uf_code_arr_of_solved t : S t < n ->
+  uf_code_arr t (qarr_of (nth (S t) code_solve (scalar VUndef))) = uf_code m p t (next_table t) dst dch cst cch.
+Proof.
+  intros Ht. pose proof (uf_of_period t Ht) as E.
+  replace (t =? n - 1) with false in E by (symmetry; apply Nat.eqb_neq; lia).
+  replace (S t =? n) with false in E by (symmetry; apply Nat.eqb_neq; lia). exact E.
+Qed.
+
+Lemma code_solve_length : 1 <= n -> length code_solve = n.
+Proof. intros H. unfold code_solve. now apply lcm_solve_length. Qed.
+
 Lemma uf_of_last_period t : S t = n ->
   the_get_uf tt t (t =? n - 1) (if S t =? n then None else Some (nth (S t) code_solve (scalar VUndef)))
   = uf_code_last m p t dst dch cst cch.
